@@ -35,7 +35,8 @@ REQUIRED_THEOREMS = ["parse_never_oob", "walk_never_oob", "rejected_never_dispat
                      "rejected_never_dispatched_session", "oversize_datagram_never_dispatched",
                      "q408_never_oob", "q408_only_blocks_of_body", "q408_bounded", "q408_roundtrip", "add408Block_some_iff",
                      "qblock_missing_represents",
-                     "q2_recovery_request_bounded", "q2_bookkeeping_invariant", "q2_recovery_inside_body", "q2_burst_bounded"]
+                     "q2_recovery_request_bounded", "q2_bookkeeping_invariant", "q2_recovery_inside_body", "q2_burst_bounded",
+                     "q2_recovery_numbers_20bit", "q2_requests_20bit"]
 RULE = ("qreq / qsend: one coap_request_missing_q_block2 on received-block sets aimed at payload-set boundaries (with / without the M variant, total_len around block boundaries and beyond 2^20 blocks) and coap_send_q_blocks from every position relative to a payload-set boundary and the end of the body, against Model/QBlock.lean reqMissingQ2 / sendQNon; q408 / qenc / qset: RFC 9177 — a client in the middle of a Q-Block1 transfer is handed 4.08 responses whose missing-blocks payload is well-formed (in / out of order, duplicates, blocks at and beyond the end of the body, beyond 2^20), non-canonical, of another major type, cut anywhere, random, up to 1 KiB; the server's add_408_block encoder on edge numbers; the Q-Block2 payload-set tests and the missing-blocks walk on received-block sets; "
         "hseq: sequences of 1-8 hostile datagrams (targeted at the state: matching token/mid/path, hostile Block/Observe/ETag/OSCORE option values; field-mutated; random) delivered to a live server (idle / holding an observation / holding a partial Block1 body) or to a client with an outstanding request, from the peer's own or a foreign address, followed by a canary request that must be answered; "
         "hparse: byte strings (blind random at lengths 0..64 and a few long ones; valid encodings; 1-4 field-level mutations of valid "
@@ -211,6 +212,19 @@ def gen_qblock(ctx, n):
         if rng.random() < 0.06:
             total = rng.choice([0, 1, 2 ** 24, 2 ** 24 + 1, 2 ** 31 - 1])
         out.append("qreq %d %d %d %d %s" % (mp, rng.choice([0, 0, 1]), szx, total, ",".join(map(str, ns)) or "-"))
+    # qreq at the end of the number space (fix 856b47c): the last blocks recorded, total_len at / around / far beyond 2^20 blocks
+    for _ in range(max(8, n // 12)):
+        mp = rng.choice([1, 2, 3, 4, 10, 16])
+        szx = rng.choice([0, 0, 1, 2, 6])
+        top = 2 ** 20
+        ns = list(range(top - rng.choice([1, 1, 2, mp, mp + 1, 2 * mp]), top))
+        if rng.random() < 0.4:
+            ns = [x for x in ns if rng.random() < 0.7] or [top - 1]
+        if rng.random() < 0.3:
+            ns = list(range(0, rng.choice([1, mp, mp + 1]))) + ns
+        total = (top << (szx + 4)) + rng.choice([-(16 << szx), -1, 0, 1, 1, 16 << szx, 12345, 2 ** 30])
+        total = min(total, 2 ** 31 - 1)
+        out.append("qreq %d %d %d %d %s" % (mp, rng.choice([0, 1, 1]), szx, total, ",".join(map(str, ns))))
     # qsend: coap_send_q_blocks from every position relative to a payload-set boundary and to the end of the body
     for _ in range(n // 3):
         mp = rng.choice([1, 2, 3, 3, 4, 10, 10, 16, 255])
@@ -246,6 +260,8 @@ def judge_qblock(ctx, c):
         if len(qs) > mp or any(a >= b for a, b in zip(nums, nums[1:])) or len({n // mp for n in nums}) > 1:
             return ("spec", "a recovery request names more than MAX_PAYLOADS blocks / a block twice / blocks of several payload sets: %s" % req[:150])
         for n in nums:
+            if n >= 2 ** 20:
+                return ("spec", "a recovery request names block %d: not a 20-bit number" % n)
             if not (n * (16 << szx) < total or any(n < r for r in rec)):
                 return ("spec", "a recovery request names block %d: beyond total_len %d and above every recorded block" % (n, total))
     if w[0] == "qsend" and i.startswith("first="):
@@ -635,14 +651,8 @@ def search(ctx, tie_breaks, proof):
 
 
 def known(ctx, c):
-    # open finding c02-qblock2-num-2e20: total_len (the peer's Size2, or offset + length + 1 of a block NUM 2^20 - 1 with M) says the
-    # body has more than 2^20 blocks of this size and block 2^20 is the next one to ask for: the request carries a 4-byte Q-Block2
-    # value (not a Block option).  Exactly: the model itself names a block >= 2^20 and the implementation's datagram does not parse.
-    w = c["input"].split()
-    if w[0] == "qreq" and "req=unparsable" in (c["impl"] or "") and " req=" in (c["model"] or ""):
-        req = c["model"].split(" req=")[1].split()[0]
-        if req != "-" and any(int(t.split(".")[0]) >= 2 ** 20 for t in req.split(",")):
-            return "c02-qblock2-num-2e20"
+    # no open finding: c02-qblock2-num-2e20 is fixed (856b47c) - a request for block 2^20 / a datagram that does not parse is
+    # a contradiction again (judge_qblock)
     return None
 
 
